@@ -62,7 +62,7 @@ def interp (line : String) : Option (Option Nat × List Mem × Rule × Nat) :=
     let ip ← parseTfx ip
     if n < 1 ∨ n > 255 then none else
     pure (some (start + n * step), relayGroup n step entry start ev tie (sf = "1") ip,
-          relayRule n step start ev tie, n)
+          relayRule n step entry start ev tie, n)
   | ["bdkg", n, honest, step, start, nsigs, reg, ev, tie] => do
     let n ← n.toNat?; let honest ← honest.toNat?; let step ← step.toNat?
     let start ← start.toNat?; let nsigs ← nsigs.toNat?; let reg ← parseTfx reg
@@ -72,7 +72,7 @@ def interp (line : String) : Option (Option Nat × List Mem × Rule × Nat) :=
     let (ev, tie) ← if ev = "@" then some (some start, [Kind.event, Kind.slot])
                      else (parseOptNat ev).map (fun e => (e, tie))
     if n < 1 ∨ n > 255 ∨ honest > n then none else
-    pure (none, bdkgGroup n honest step start nsigs reg ev tie, bdkgRule start reg ev tie, n)
+    pure (none, bdkgGroup n honest step start nsigs reg ev tie, bdkgRule step start reg ev tie, n)
   | ["tdkg", n, q, cur, nsigs, state, w] => do
     let n ← n.toNat?; let q ← q.toNat?; let cur ← cur.toNat?; let nsigs ← nsigs.toNat?
     let state ← parseState state; let w ← parseWait w
@@ -124,7 +124,7 @@ def monitorAppr (o : ApprOp) (obs : String) : String :=
   | [w, a] =>
     match parseTagged "W=" w, parseTagged "A=" a with
     | some ws, some as =>
-      if holdsAppr o.p o.prec o.seats.length o.tie o.ev ws as then "ok" else "FAIL approval-rule"
+      if holdsAppr o.submitter o.p o.prec o.seats o.tie o.ev ws as then "ok" else "FAIL approval-rule"
     | _, _ => "FAIL unparsable-observation"
   | _ => "FAIL unparsable-observation"
 
